@@ -4,6 +4,7 @@ import (
 	"fmt"
 	"math"
 	"math/big"
+	"strings"
 	"time"
 
 	"github.com/smart-core-os/sc-api/go/traits"
@@ -355,7 +356,11 @@ func (g *c18) modeSum(ms []*traits.ElectricMode) {
 			g.mutated("modepb.Sum", js)
 		}
 	}
-	g.add("mode.Sum", vcoq.App("KModeSum", vcoq.List(items), coqOptMode(out)), js, len(ms) > 1)
+	lists := make([][]*traits.ElectricMode_Segment, len(orig))
+	for i, m := range orig {
+		lists[i] = m.Segments
+	}
+	g.addT("mode.Sum", vcoq.App("KModeSum", vcoq.List(items), coqOptMode(out)), js, len(ms) > 1, sumGuardTag(lists))
 }
 
 func genC18(o *vcoq.Out, r *vcoq.Rand, tier string) error {
@@ -527,6 +532,19 @@ func genC18(o *vcoq.Out, r *vcoq.Rand, tier string) error {
 			g.ownSum(ls, false)
 		}
 	}
+	// Sum over lists whose running offset reaches the int64 limits
+	for i := 0; i < 40*scale; i++ {
+		n := r.Range(1, 3)
+		ls := make([][]*traits.ElectricMode_Segment, n)
+		for k := range ls {
+			if r.Chance(60) {
+				ls[k] = g.bigSegs()
+			} else {
+				ls[k] = g.segs()
+			}
+		}
+		g.sumOp(ls)
+	}
 	// ---- modes ----
 	for i := 0; i < 120*scale; i++ {
 		m := g.mode(r.Chance(70))
@@ -570,8 +588,16 @@ func genC18(o *vcoq.Out, r *vcoq.Rand, tier string) error {
 		ms := make([]*traits.ElectricMode, n)
 		anyStart := r.Chance(70)
 		zeroEra := r.Chance(15)
+		signed := r.Chance(30)
 		for k := range ms {
 			ms[k] = g.mode(anyStart && r.Chance(70))
+			if signed {
+				for _, sg := range ms[k].Segments {
+					if sg.Magnitude != 0 && r.Chance(50) {
+						sg.Magnitude = -sg.Magnitude
+					}
+				}
+			}
 			if ms[k].StartTime != nil && zeroEra {
 				// around the smallest valid Timestamp, 0001-01-01T00:00:00Z, which is time.Time's zero value
 				// (all start times of the call are moved there so that their differences stay small)
@@ -583,7 +609,45 @@ func genC18(o *vcoq.Out, r *vcoq.Rand, tier string) error {
 			g.ownModeSum(ms)
 		}
 	}
+	// guard-pass rate and outcome classes (which branch of the model an input takes) for the evidence
+	in, out := 0, 0
+	classes := map[string]int{}
+	for _, c := range o.Cases {
+		for _, t := range c.Tags {
+			switch {
+			case t == "guard:in":
+				in++
+			case strings.HasPrefix(t, "guard:out"):
+				out++
+				classes[t]++
+			case strings.Contains(t, ":"):
+				classes[t]++
+			}
+		}
+	}
+	never := []string{}
+	for _, want := range expectedClasses {
+		if classes[want] == 0 {
+			never = append(never, want)
+		}
+	}
+	o.Extra["coverage_extra"] = map[string]any{
+		"guard_tagged_cases": in + out, "guard_in": in, "guard_out": out,
+		"guard_note":         "cases of the kinds that have a range/validity guard (periods, segment ops with a duration, Sum); all other kinds are inside their guard by construction of the generator",
+		"outcome_classes":    classes,
+		"classes_never_hit":  never,
+	}
 	return nil
+}
+
+// every outcome class the generator is expected to reach in each run (checked: listed under classes_never_hit otherwise)
+var expectedClasses = []string{
+	"active:before-start", "active:no-segments", "active:past-end", "active:in-infinite-tail", "active:after-zero-length", "active:in-finite",
+	"shift:zero", "shift:empty", "shift:first-zero-infinite", "shift:extend-first", "shift:prepend", "shift:neg-removes-all", "shift:neg-into-infinite", "shift:neg-at-boundary", "shift:neg-cuts-segment",
+	"cut:negative", "cut:zero", "cut:infinite", "cut:whole-before", "cut:proper",
+	"sum:no-edges", "sum:coinciding-edges", "sum:distinct-edges", "sum:infinite-tail-kept", "sum:open-tail-dropped",
+	"mcut:no-segments", "mcut:no-start-time", "mcut:before-start", "mcut:at-start", "mcut:after-end", "mcut:at-boundary", "mcut:splits-segment",
+	"guard:out(int64-overflow)", "guard:out(inverted-period)", "guard:out(negative-open-tail)",
 }
 
 var extremeStarts = []*timestamppb.Timestamp{
@@ -637,6 +701,11 @@ func guardTag(d int64, l []*traits.ElectricMode_Segment) string {
 	return "guard:in"
 }
 func sumGuardTag(ls [][]*traits.ElectricMode_Segment) string {
+	for _, l := range ls {
+		if guardTag(0, l) != "guard:in" {
+			return "guard:out(int64-overflow)"
+		}
+	}
 	var tail float32
 	for _, l := range ls {
 		for _, s := range l {
